@@ -8,7 +8,7 @@ for f in os.listdir(src):
     if f.startswith(("patch.diff", "demo.", "notes.md")):
         shutil.copy(os.path.join(src, f), d)
 conf = ""
-for log in ("/tmp/seed-confirm-1.log", "/tmp/seed-confirm-2.log", "/tmp/seed-confirm-3.log", "/tmp/seed-confirm-4.log"):
+for log in ("/tmp/seed-confirm-1.log", "/tmp/seed-confirm-2.log", "/tmp/seed-confirm-3.log", "/tmp/seed-confirm-4.log", "/tmp/seed-confirm-5.log"):
     if os.path.exists(log):
         for l in open(log):
             if l.startswith("RESULT %s " % prop):
